@@ -65,18 +65,28 @@ def run(ctx):
         ctx.obligations.append(("persistence-schema-extraction", False, gen_err))
     # ---- implementation judge
     nscen, steps = (4, 12) if ctx.tier == "quick" else (60, 18)
-    rc, lines = ctx.run_bin("h_persist", "", args=[str(nscen), str(ctx.seed), str(steps)], timeout=1500)
+    # one process per scenario: a read of CORRUPTED bytes that aborts the process (unbounded allocation) must
+    # not take the valid round trips down with it; such a scenario is re-run without corrupted reads
     recs = []
-    for l in lines:
-        if l.startswith("R {"):
-            try:
-                recs.append(json.loads(l[2:]))
-            except ValueError:
-                pass
-    if rc != 0 or len(recs) != nscen:
-        ctx.violation("h_persist crashed or produced too few scenario results", {"broken": "judge:h_persist", "rc": rc, "n": len(recs), "tail": [l for l in lines if l.startswith("R ")][-3:]}, False)
-        ctx.write_evidence(LEVEL)
-        return
+    aborts = []
+    srng = ctx.rng.fork("persist-scenarios")
+    for i in range(nscen):
+        sseed = srng.below(2 ** 62)
+        rc, lines = ctx.run_bin("h_persist", "", args=["1", str(sseed), str(steps)], timeout=900)
+        got = [json.loads(l[2:]) for l in lines if l.startswith("R {") and l.rstrip().endswith("}")]
+        if rc != 0 and not got:
+            why = [l for l in lines if "memory allocation of" in l or "panicked at" in l][:2]
+            aborts.append({"scenario_arg_seed": sseed, "rc": rc, "why": why})
+            rc, lines = ctx.run_bin("h_persist", "", args=["1", str(sseed), str(steps)], timeout=900, env={"H_PERSIST_NO_CORRUPT": "1"})
+            got = [json.loads(l[2:]) for l in lines if l.startswith("R {") and l.rstrip().endswith("}")]
+        for g in got:
+            g["arg_seed"] = sseed
+        recs += got
+        if rc != 0 or not got:
+            ctx.violation("h_persist crashed on VALID round trips (no corrupted reads involved)", {"broken": "judge:h_persist", "rc": rc, "arg_seed": sseed, "tail": [l for l in lines if "panicked" in l or "memory allocation" in l][-3:], "replay_cmd": "H_PERSIST_NO_CORRUPT=1 %s 1 %d %d" % (ctx.bin_path("h_persist"), sseed, steps)}, True)
+            ctx.write_evidence(LEVEL)
+            return
+    ctx.coverage["observations_corrupted_read_aborts"] = aborts
     fails = [r for r in recs if not r.get("ok")]
     tot = {}
     for r in recs:
@@ -110,8 +120,8 @@ def run(ctx):
     if fails:
         f = fails[0]
         ctx.violation("C12 fails on the implementation: " + (f.get("fails") or ["?"])[0],
-                      {"broken": broken or "implementation judge", "failing_input": {"check_seed": ctx.seed, "n_scenarios": nscen, "steps": steps, "scenario": f.get("scenario"), "scenario_seed": f.get("seed"), "ops": f.get("ops"), "fails": f.get("fails")},
-                       "n_failing_scenarios": len(fails), "replay_cmd": "%s %d %d %d" % (ctx.bin_path("h_persist"), nscen, ctx.seed, steps)}, True,
+                      {"broken": broken or "implementation judge", "failing_input": {"arg_seed": f.get("arg_seed"), "steps": steps, "scenario_seed": f.get("seed"), "ops": f.get("ops"), "fails": f.get("fails")},
+                       "n_failing_scenarios": len(fails), "replay_cmd": "%s 1 %s %d" % (ctx.bin_path("h_persist"), f.get("arg_seed"), steps)}, True,
                       key="persist:" + (f.get("fails") or ["?"])[0].split("]")[-1].strip()[:60])
     elif broken:
         ctx.violation("C12 no longer shown: " + ("schema extraction" if gen_err else "proof") + " broken",
@@ -125,7 +135,7 @@ def replay(ctx, rep):
     if not ok_build or not fi:
         print(json.dumps(rep, indent=1)[:4000])
         return 1
-    rc, lines = ctx.run_bin("h_persist", "", args=[str(fi.get("n_scenarios", 4)), str(fi.get("check_seed", 1)), str(fi.get("steps", 12))], timeout=1500)
+    rc, lines = ctx.run_bin("h_persist", "", args=["1", str(fi.get("arg_seed", 1)), str(fi.get("steps", 12))], timeout=1500)
     for l in lines:
         if l.startswith("R {"):
             print(l[:1500])
